@@ -8,8 +8,11 @@ package main
 
 import (
 	"bytes"
+	"encoding/hex"
 	"fmt"
 	"io"
+	"os"
+	"os/exec"
 	"math/big"
 	"reflect"
 	"strings"
@@ -723,3 +726,335 @@ func negativeBigChecks() {
 }
 
 var _ = geth.EncodeToBytes
+
+// ---------------------------------------------------------------- slices of wide elements, readers without a length
+
+// wideTypes: slices whose element is wide in memory (kilobytes) and may be tiny on the wire, so
+// that an allocation sized from a CLAIMED list length costs far more than the input justifies.
+func wideElem(r *gen.Rand) *T {
+	a := func(n int) *T { return &T{K: "arr", N: n} }
+	u64 := &T{K: "u", Bits: 64}
+	switch r.Intn(4) {
+	case 0:
+		return a(4096)
+	case 1:
+		return &T{K: "struct", Fields: []F{{T: a(2048)}, {T: a(2048)}, {T: u64}, {T: u64}}}
+	case 2:
+		// every field optional: the one-byte element c0 is a valid (zero) value
+		return &T{K: "struct", Fields: []F{{T: a(1024), Opt: true}, {T: a(1024), Opt: true}, {T: u64, Opt: true}}}
+	default:
+		return &T{K: "vec", N: 3, Elem: a(1024)}
+	}
+}
+
+func wideCase(r *gen.Rand) (*T, [][]byte) {
+	t := &T{K: "list", Elem: wideElem(r)}
+	if r.Chance(1, 4) {
+		t = &T{K: "struct", Fields: []F{{T: &T{K: "u", Bits: 64}}, {T: t}}}
+	}
+	o.InOnly("T " + t.tokens())
+	o.Count("case.wide-slice")
+	o.Mark("wide:" + t.tokens())
+	var encs [][]byte
+	// one or two honest values (round trip through the model as well)
+	for i := 0; i < 2; i++ {
+		step++
+		v := reflect.New(t.rtype()).Elem()
+		genVal(r, t, F{}, v, false)
+		ds := dump(t, v)
+		e, err, pan := safeEncode("kai", v.Interface())
+		if pan || err != nil {
+			o.Fail(step, "panic-encode", fmt.Sprintf("type=[%s] %v", t.tokens(), err))
+			continue
+		}
+		o.Op("E "+ds, "e "+hexs(e))
+		o.Op("D "+hexs(e), decodeOp(t, e, !t.hasOptional()))
+		if len(e) < 600 {
+			encs = append(encs, e)
+		}
+	}
+	// lists that claim (and have) a large payload of tiny or wrong elements
+	for i := 0; i < 3; i++ {
+		step++
+		p := []int{300, 1000, 4000, 12000, 20000}[r.Intn(5)]
+		if r.Chance(1, 12) {
+			p = 60000
+		}
+		if t.hasOptional() {
+			// one-byte elements are valid values of this element type: keep the decoded value (and
+			// its dump) small; the claimed-size allocation would still be p x 2 KB
+			p = []int{20, 40, 80}[r.Intn(3)]
+		}
+		var payload []byte
+		switch r.Intn(5) {
+		case 0:
+			payload = fill(p, 0x80)
+		case 1:
+			payload = fill(p, 0xc0)
+		case 2: // one string that fills the list
+			if sb, ok := strOfEncLen(r, p); ok {
+				payload, _ = rlp.EncodeToBytes(sb)
+			} else {
+				payload = fill(p, 0x80)
+			}
+		case 3:
+			payload = append(fill(p/2, 0xc0), fill(p-p/2, 0x01)...)
+		default:
+			payload = r.Bytes(p)
+		}
+		b := append(headCanon(0xC0, 0xF7, len(payload)), payload...)
+		if t.K == "struct" {
+			in := append([]byte{0x05}, b...)
+			b = append(headCanon(0xC0, 0xF7, len(in)), in...)
+		}
+		o.Count("wide.claimed-payload")
+		o.Op("D "+hexs(b), decodeOp(t, b, !t.hasOptional()))
+	}
+	return t, encs
+}
+
+type plainReader struct{ r io.Reader }
+
+func (p plainReader) Read(b []byte) (int, error) { return p.r.Read(b) }
+
+type wideRec struct {
+	A, B [2048]byte
+	C    uint64
+}
+
+// unlimitedReader: rlp.Decode from a reader whose length the Stream cannot know.  A LIST header may
+// then claim any size (the elements are read one by one until the input ends); nothing may be
+// sized from that claim: no panic, an error, allocation bounded by the bytes that were there.
+// The probes run in a child process with a limited address space (harness -unl <hex>): an
+// allocation sized from such a claim is a fatal out-of-memory error that recover() cannot catch.
+func unlTargets() []func() interface{} {
+	return []func() interface{}{
+		func() interface{} { return new([]uint64) },
+		func() interface{} { return new([][]byte) },
+		func() interface{} { return new([]wideRec) },
+		func() interface{} { return new([]interface{}) },
+		func() interface{} { return new([][]wideRec) },
+		func() interface{} { return new(struct{ A []wideRec }) },
+		func() interface{} { return new(interface{}) },
+	}
+}
+
+// unlChildMain: one line per target: "ok" | "panic <msg>" | "accepted" | "alloc <n>"
+func unlChildMain(hx string) {
+	b, _ := hex.DecodeString(hx)
+	for _, mk := range unlTargets() {
+		tgt := mk()
+		var err error
+		m0 := memNow()
+		msg, pan := catch(func() { err = rlp.Decode(plainReader{bytes.NewReader(b)}, tgt) })
+		m1 := memNow()
+		switch {
+		case pan:
+			fmt.Printf("panic %s\n", strings.ReplaceAll(msg, "\n", " "))
+		case err == nil:
+			fmt.Println("accepted")
+		case m1-m0 > 1<<20:
+			fmt.Printf("alloc %d\n", m1-m0)
+		default:
+			fmt.Println("ok")
+		}
+	}
+	os.Exit(0)
+}
+
+func unlimitedReader(r *gen.Rand) {
+	step++
+	claims := [][]byte{{0xff, 0x7f, 0xff, 0xff, 0xff, 0xff, 0xff, 0xff, 0xff}, {0xff, 0xff, 0xff, 0xff, 0xff, 0xff, 0xff, 0xff, 0xff},
+		{0xff, 0x80, 0, 0, 0, 0, 0, 0, 0}, {0xfc, 0x01, 0, 0, 0, 0}, {0xfb, 0x7f, 0xff, 0xff, 0xff}, {0xfb, 0x40, 0, 0, 0}, {0xfa, 0xff, 0xff, 0xff}}
+	b := append([]byte{}, claims[r.Intn(len(claims))]...)
+	for k := r.Intn(6); k > 0; k-- {
+		b = append(b, []byte{0x01, 0x80, 0xc0, 0x7f, 0x82, 0xc1}[r.Intn(6)])
+	}
+	cmd := exec.Command("/bin/sh", "-c", `ulimit -v 3000000; exec "$0" -unl "$1"`, os.Args[0], hex.EncodeToString(b))
+	var outb, errb bytes.Buffer
+	cmd.Stdout, cmd.Stderr = &outb, &errb
+	done := make(chan error, 1)
+	if cmd.Start() != nil {
+		return
+	}
+	go func() { done <- cmd.Wait() }()
+	select {
+	case <-done:
+	case <-time.After(120 * time.Second):
+		cmd.Process.Kill()
+	}
+	lines := strings.Split(strings.TrimSpace(outb.String()), "\n")
+	names := []string{"[]uint64", "[][]byte", "[]wide struct", "[]interface{}", "[][]wide struct", "struct{[]wide struct}", "interface{}"}
+	for i, nm := range names {
+		l := "died"
+		if i < len(lines) && lines[i] != "" {
+			l = lines[i]
+		}
+		ctx := fmt.Sprintf("rlp.Decode from a reader without a known length into %s, input=%s (%d bytes, the list header claims far more)", nm, hexs(b), len(b))
+		switch {
+		case l == "ok":
+		case l == "died":
+			msg := errb.String()
+			if k := strings.Index(msg, "\n"); k > 0 {
+				msg = msg[:k]
+			}
+			o.Fail(step, "alloc-crash", ctx+" kills a decoding process whose address space is limited to 3 GB: "+strings.ReplaceAll(msg, " ", "_"))
+			i = len(names)
+		case strings.HasPrefix(l, "panic"):
+			o.Fail(step, "panic-decode", ctx+": "+l)
+		case l == "accepted":
+			o.Fail(step, "unlimited-accepted", ctx+" was accepted")
+		default:
+			o.Fail(step, "alloc-unbounded", ctx+": "+l)
+		}
+		if l == "died" {
+			break
+		}
+	}
+	o.Count("stream.unlimited-reader")
+}
+
+// ---------------------------------------------------------------- hand-mutated fields of the real types
+
+// fieldVariants: replacements for one field of an encoding
+func fieldVariants(r *gen.Rand) [][]byte {
+	vs := [][]byte{{0x00}, {0x01}, {0x02}, {0x7f}, {0x80}, {0x81, 0x80}, {0x81, 0xff}, {0xc0}, {0xc1, 0x80}}
+	for _, n := range []int{2, 8, 19, 20, 21, 31, 32, 33, 255, 256, 257} {
+		vs = append(vs, append(headCanon(0x80, 0xB7, n), r.Bytes(n)...))
+	}
+	return vs
+}
+
+// withNodeReplaced: the canonical encoding of tree n with node number `at` replaced by raw
+func (n *node) replaced(idx *int, at int, raw []byte) []byte {
+	me := *idx
+	*idx++
+	if me == at {
+		// skip the numbering of the subtree
+		*idx += n.count() - 1
+		return raw
+	}
+	if !n.isL {
+		if len(n.str) == 1 && n.str[0] < 0x80 {
+			return n.str
+		}
+		return append(headCanon(0x80, 0xB7, len(n.str)), n.str...)
+	}
+	var payload []byte
+	for _, c := range n.list {
+		payload = append(payload, c.replaced(idx, at, raw)...)
+	}
+	return append(headCanon(0xC0, 0xF7, len(payload)), payload...)
+}
+
+// fieldMutants: every encoding in encs with one field (at any depth) replaced by a variant; each is
+// handed to the oracle "accepted by the real type's decoder => re-encodes to exactly these bytes"
+func fieldMutants(r *gen.Rand, encs [][]byte, reDecode func([]byte), k int) {
+	if reDecode == nil {
+		return
+	}
+	for _, e := range encs {
+		nd, rest := parseNode(e)
+		if nd == nil || len(rest) != 0 {
+			continue
+		}
+		vars := fieldVariants(r)
+		for i := 0; i < k; i++ {
+			idx := 0
+			at := 1 + r.Intn(nd.count())
+			if at >= nd.count() {
+				at = nd.count() - 1
+			}
+			if at < 1 {
+				continue
+			}
+			reDecode(nd.replaced(&idx, at, vars[r.Intn(len(vars))]))
+			o.Count("real.field-mutant")
+		}
+	}
+}
+
+// receiptStatusMutants: the first field of a receipt (post state or status): every single byte,
+// and strings of the lengths around the two legal ones
+func receiptStatusMutants(r *gen.Rand, enc []byte, reDecode func([]byte)) {
+	nd, rest := parseNode(enc)
+	if nd == nil || len(rest) != 0 || !nd.isL || len(nd.list) == 0 {
+		return
+	}
+	var vars [][]byte
+	for b := 0; b < 0x80; b++ {
+		vars = append(vars, []byte{byte(b)})
+	}
+	vars = append(vars, []byte{0x80}, []byte{0x81, 0x80}, []byte{0x81, 0xff})
+	for _, n := range []int{2, 31, 32, 33} {
+		vars = append(vars, append(headCanon(0x80, 0xB7, n), r.Bytes(n)...))
+	}
+	for _, v := range vars {
+		idx := 0
+		reDecode(nd.replaced(&idx, 1, v))
+	}
+	o.Count("real.receipt-status-mutants")
+}
+
+// otherRealDecoders: Log, LogForStorage and BlockInfo have hand-written DecodeRLP methods too.
+// Oracle only (no model line): accepted => re-encodes to the input.
+func otherRealDecoders(r *gen.Rand) {
+	step++
+	chk := func(name string, b []byte, mk func() interface{}) {
+		x := mk()
+		err, pan := safeDecode("kai", b, x)
+		if pan {
+			o.Fail(step, "panic-decode-real", name+" input="+hexs(b))
+		} else if err == nil {
+			if re, _, _ := safeEncode("kai", x); !bytes.Equal(re, b) {
+				o.Fail(step, "noncanonical-real", fmt.Sprintf("%s input=%s reenc=%s", name, hexs(b), hexs(re)))
+			}
+		}
+	}
+	logs := genLogs(r)
+	for _, l := range logs {
+		e, err, pan := safeEncode("kai", l)
+		if pan || err != nil {
+			o.Fail(step, "real-encode-failed", fmt.Sprint("log ", err))
+			continue
+		}
+		chk("log", e, func() interface{} { return new(types.Log) })
+		chk("log-storage", e, func() interface{} { return new(types.LogForStorage) })
+		fieldMutants(r, [][]byte{e}, func(b []byte) {
+			chk("log", b, func() interface{} { return new(types.Log) })
+			chk("log-storage", b, func() interface{} { return new(types.LogForStorage) })
+		}, 6)
+	}
+	bi := &types.BlockInfo{GasUsed: genU64(r, 64), Rewards: genBig(r)}
+	for k := r.Intn(3); k > 0; k-- {
+		rc := &types.Receipt{CumulativeGasUsed: genU64(r, 64), Logs: genLogs(r), GasUsed: genU64(r, 64),
+			TxHash: common.BytesToHash(r.Bytes(32)), ContractAddress: common.BytesToAddress(r.Bytes(20))}
+		if r.Bool() {
+			rc.Status = types.ReceiptStatusSuccessful
+		}
+		rc.Bloom = types.CreateBloom(types.Receipts{rc})
+		bi.Receipts = append(bi.Receipts, rc)
+	}
+	e, err, pan := safeEncode("kai", bi)
+	if pan || err != nil {
+		o.Fail(step, "real-encode-failed", fmt.Sprint("blockinfo ", err))
+		return
+	}
+	var back types.BlockInfo
+	if derr, dpan := safeDecode("kai", e, &back); derr != nil || dpan {
+		o.Fail(step, "real-roundtrip", fmt.Sprintf("blockinfo enc=%s err=%v", hexs(e), derr))
+	} else if e2, _, _ := safeEncode("kai", &back); !bytes.Equal(e, e2) {
+		o.Fail(step, "real-hash-unstable", fmt.Sprintf("blockinfo enc=%s reenc=%s", hexs(e), hexs(e2)))
+	}
+	mk := func() interface{} { return new(types.BlockInfo) }
+	fieldMutants(r, [][]byte{e}, func(b []byte) { chk("blockinfo", b, mk) }, 12)
+	// the status field of the first stored receipt, every value
+	if nd, rest := parseNode(e); nd != nil && len(rest) == 0 && nd.isL && len(nd.list) == 4 && len(nd.list[2].list) > 0 {
+		// node numbering: 0 outer, 1 gas, 2 rewards, 3 receipts, 4 first receipt, 5 its status
+		for b := 0; b < 0x80; b += 1 + r.Intn(3) {
+			idx := 0
+			chk("blockinfo", nd.replaced(&idx, 5, []byte{byte(b)}), mk)
+		}
+	}
+	o.Count("real.other-decoders")
+}
